@@ -188,7 +188,13 @@ def grid_rows(chk: Check, n):
     rng = chk.rng
     A = tt.aggr.Aggregates
     rec = {}
-    orig_solve, orig_val = RatioOfMeans._solve_power_from_stats, RatioOfMeans._validate_power_parameters
+    orig_solve = getattr(RatioOfMeans, "_solve_power_from_stats", None)
+    orig_val = getattr(RatioOfMeans, "_validate_power_parameters", None)
+    if orig_solve is None or orig_val is None:
+        # private methods: their absence is a refactoring, not a violation; the rows are still decided by float_solver
+        chk.disagree("RatioOfMeans._solve_power_from_stats / _validate_power_parameters no longer exist: the recorded tie "
+                     "of Model/PowerGrid.lean has nothing to record", dict(cls="tea_tasting.metrics.mean.RatioOfMeans"))
+        return
 
     def solve(self, *a, **kw):
         v = orig_solve(self, *a, **kw)
